@@ -398,7 +398,7 @@ def _classify(e: BaseException):
     return ('escaped', False), type(e).__name__, fingerprint(e)
 
 
-def run_text(version: str, text: str) -> list:
+def run_text(version: str, text: str, parser_kwargs: dict | None = None) -> list:
     """Parse `text` with a fresh parser of `version`, evaluate it if it parses.
     Returns observations (phase, detail, shape, identity, fingerprint)."""
     obs = []
@@ -406,8 +406,8 @@ def run_text(version: str, text: str) -> list:
     try:
         phase, detail = 'parse', ''
         try:
-            parser = _W['P'][version]()
             try:
+                parser = _W['P'][version](**(parser_kwargs or {}))
                 root = parser.parse(text)
             except BaseException as e:   # noqa
                 signal.alarm(0)
@@ -446,11 +446,21 @@ class _Agg:
         self.nontrivial: set = set()     # 64-bit hashes of the distinct non-trivial (version, text) pairs
         self.samples: list = []
 
-    def judge(self, version: str, text: str, origin: dict) -> str:
+    def judge(self, version: str, text: str, origin: dict, parser_kwargs: dict | None = None) -> str:
+        self.last_parse = None        # 'value' | 'err' when the parse outcome was legal
         if _too_many_hangs():
             self.stats['skipped_after_hangs'] += 1
             return 'skipped'
-        obs = run_text(version, text)
+        obs = run_text(version, text, parser_kwargs)
+        if all(o[2] is None or _is_legal(o[0], o[2]) for o in obs) and _lock_hygiene():
+            # every call returned or raised legally, yet the process-wide collation lock is still held:
+            # the NEXT collation call of this process would block for ever
+            self.stats['lock_left_held'] += 1
+            feat = dict(kind='lock-held', phase='eval' if len(obs) > 1 else 'parse', exc=None, where='collation lock')
+            case = dict(mode='text', version=version, text=text, phase=feat['phase'], detail='', origin=origin,
+                        parser_kwargs=parser_kwargs)
+            self.fails.setdefault(json.dumps(feat, sort_keys=True),
+                                  [feat, 0, case, 'collation lock released after the call', 'locked'])[1] += 1
         for o in obs:
             if o[2] is not None and o[2][0] == 'hang':
                 _lock_hygiene()
@@ -465,6 +475,8 @@ class _Agg:
             if phase == 'parse':
                 parsed = shape[0] == 'value'
                 pcode = ident
+                if _is_legal(phase, shape):
+                    self.last_parse = shape[0]
                 self.stats['parse_' + shape[0]] += 1
             else:
                 self.stats['eval_' + shape[0]] += 1
@@ -474,7 +486,7 @@ class _Agg:
                 key = json.dumps(feat, sort_keys=True)
                 ent = self.fails.get(key)
                 case = dict(mode='text', version=version, text=text, phase=phase, detail=detail, origin=origin,
-                            token_symbol=fp['sym'])
+                            token_symbol=fp['sym'], parser_kwargs=parser_kwargs)
                 if ent is None:
                     self.fails[key] = [feat, 1, case, f'member of LegalShapes({phase})', [shape[0], ident]]
                 else:
@@ -599,6 +611,21 @@ CLASS_TEXT = {'attr': '/a/@x', 'elem': '/a/b', 'untyped_bad': "xs:untypedAtomic(
               'bigneg': '-1000000000000', 'baduri': "'http://['", 'nul': "'\x00'"}
 
 
+COLL_CLASSES = ["coll_codepoint", "coll_html", "coll_uca", "coll_current", "coll_C", "coll_POSIX", "coll_Cutf8",
+                "coll_unknown", "coll_empty"]
+COLL_TEXT = {'coll_codepoint': 'http://www.w3.org/2005/xpath-functions/collation/codepoint',
+             'coll_html': 'http://www.w3.org/2005/xpath-functions/collation/html-ascii-case-insensitive',
+             'coll_uca': 'http://www.w3.org/2013/collation/UCA?lang=de', 'coll_C': 'C', 'coll_POSIX': 'POSIX',
+             'coll_Cutf8': 'C.utf8', 'coll_unknown': 'http://example.org/unknown-collation', 'coll_empty': ''}
+
+
+def collation_uri(cls: str) -> str:
+    if cls == 'coll_current':      # the locale that is active for LC_COLLATE right now, in this process
+        import locale
+        return locale.setlocale(locale.LC_COLLATE, None)
+    return COLL_TEXT[cls]
+
+
 def split_signature(sig: str) -> list[str]:
     """'function(xs:string?, item()*) as xs:string' -> ['xs:string?', 'item()*'] (top-level commas only)."""
     if not sig.startswith('function('):
@@ -653,6 +680,8 @@ def render_arg(ptype: str, cls: str) -> str:
         valid = "'" + lex + "'"
     if cls == 'valid':
         return valid
+    if cls.startswith('coll_'):
+        return "'" + collation_uri(cls) + "'"
     if cls == 'untyped_ok':
         return "xs:untypedAtomic('" + lex + "')"
     if cls == 'seq':
@@ -665,11 +694,46 @@ def render_call(name: str, ptypes, args) -> str:
 
 
 def call_worker(job):
-    """job: list of (name, ptypes, args, version)."""
+    """job: list of (name, ptypes, args, calls, version); calls = 2: the call is made twice in a row in this
+    process.  A call whose LAST argument is a collation class is also made without that argument on a parser
+    configured with default_collation = that collation."""
     agg = _Agg()
-    for name, ptypes, args, v in job:
+    for name, ptypes, args, ncalls, v in job:
         text = render_call(name, ptypes, args)
-        agg.judge(v, text, dict(kind='call', function=name, parameter_types=list(ptypes), argument_classes=list(args)))
+        origin = dict(kind='call', function=name, parameter_types=list(ptypes), argument_classes=list(args), calls=ncalls)
+        for _ in range(ncalls):
+            agg.judge(v, text, origin)
+        if ncalls == 2 and args and args[-1].startswith('coll_') and v != '1.0':
+            text2 = render_call(name, ptypes[:-1], args[:-1])
+            for _ in range(2):
+                agg.judge(v, text2, dict(origin, default_collation=args[-1]),
+                          parser_kwargs=dict(default_collation=collation_uri(args[-1])))
+    return agg.result()
+
+
+def pump_text(p: dict, n: int) -> str:
+    return p['head'] + p['unit'] * n + p['mid'] + p['post'] * n + p['tail']
+
+
+def pump_worker(job):
+    """job: list of (pump, counts, version).  Every text is judged (legal outcome, 10 s watchdog); for pumps
+    with inv = TRUE the class of the parse outcome must not depend on the count (PumpLaw of Tokens.tla)."""
+    agg = _Agg()
+    for p, counts, v in job:
+        classes = {}
+        for n in counts:
+            agg.judge(v, pump_text(p, n), dict(kind='pump', pump=p['id'], n=n))
+            classes[n] = agg.last_parse
+        base = classes.get(min(counts))
+        if p['inv'] and base is not None:
+            for n in counts:
+                if classes[n] is not None and classes[n] != base:
+                    feat = dict(kind='pump-class', pump=p['id'], version=v, base=base, pumped=classes[n])
+                    case = dict(mode='text', version=v, text=pump_text(p, n), phase='parse', detail='', origin=dict(kind='pump', pump=p['id'], n=n))
+                    agg.fails.setdefault(json.dumps(feat, sort_keys=True), [feat, 0, case, base, classes[n]])[1] += 1
+    for ent in agg.fails.values():
+        if len(ent[2]['text']) > 400:
+            ent[2]['text_len'] = len(ent[2]['text'])
     return agg.result()
 
 
@@ -956,29 +1020,34 @@ def run(chk: core.Check) -> None:
     os.makedirs(gen_a, exist_ok=True)
     with open(os.path.join(gen_a, 'C03ArgPlan.tla'), 'w') as fh:
         fh.write('---- MODULE C03ArgPlan ----\n(* generated: arities of the exported signatures (binding C) *)\n'
-                 'EXTENDS Naturals, Sequences, TLC\nCONSTANTS Classes, MaxDev\nVARIABLES sig, args\n')
+                 'EXTENDS Naturals, Sequences, TLC\nCONSTANTS Classes, CollClasses, MaxDev\nVARIABLES sig, args, calls\n')
         fh.write('GenArity == <<' + ', '.join(str(len(p)) for _, p in sigs) + '>>\n')
-        fh.write('INSTANCE ArgClass WITH Arity <- GenArity\n')
-        fh.write('ASSUME PrintPlanSize == PrintT(<<"plan_size_1", PlanSize1>>)\n====\n')
+        fh.write('GenNames == <<' + ', '.join(tla.to_tla(n) for n, _ in sigs) + '>>\n')
+        fh.write('INSTANCE ArgClass WITH Arity <- GenArity, Names <- GenNames\n')
+        fh.write('ASSUME PrintPlanSize == PrintT(<<"plan_size_1", PlanSize1, PlanSizeColl>>)\n====\n')
     wd = os.path.join(chk.scratch, 'args')
     dot = os.path.join(wd, 'g.dot')
-    cfg = tla.cfg_text(dict(Classes=set(ARG_CLASSES), MaxDev=tier['max_dev']), invariants=['TypeOK', 'Bounded'])
+    cfg = tla.cfg_text(dict(Classes=set(ARG_CLASSES), CollClasses=set(COLL_CLASSES), MaxDev=tier['max_dev']),
+                       invariants=['TypeOK', 'Bounded'])
     r = tla.require_ok(tla.run_tlc('C03ArgPlan', cfg, wd, dump_dot=dot, workers=min(PROCS, 8), extra_modules_dir=gen_a), 'ArgClass')
     chk.model('ArgClass', r)
     t0 = time.time()
     g = tla.load_dot(dot)
     os.remove(dot)
     n_edges = len(g.edges)
-    calls = sorted((st['sig'], tuple(st['args'])) for st in g.states.values())
+    calls = sorted((st['sig'], tuple(st['args']), st['calls']) for st in g.states.values())
     del g
-    plan1 = next(printed(r.output, 'plan_size_1'), (0,))[0]
-    n1 = sum(1 for _, a in calls if sum(c != 'valid' for c in a) <= 1)
-    if n1 != plan1 or n1 != len(sigs) + sum(len(p) for _, p in sigs) * len(ARG_CLASSES):
-        raise tla.MachineryError(f'ArgClass plan incomplete: {n1} calls with <= 1 deviation, TLC says {plan1}')
-    for i, a in calls:
+    plan1, plan_coll = next(printed(r.output, 'plan_size_1'), (0, 0))
+    n1 = sum(1 for _, a, c in calls if c == 1 and sum(x != 'valid' for x in a) <= 1)
+    n_again = sum(1 for _, a, c in calls if c == 2 and sum(x != 'valid' for x in a) <= 1)
+    if n1 != plan1 + plan_coll or n_again != plan_coll or plan_coll < 10 * len(COLL_CLASSES) \
+            or plan1 != len(sigs) + sum(len(p) for _, p in sigs) * len(ARG_CLASSES):
+        raise tla.MachineryError(f'ArgClass plan incomplete: {n1} calls with <= 1 deviation, {n_again} repeated; '
+                                 f'TLC says {plan1} + {plan_coll}')
+    for i, a, _ in calls:
         if len(a) != len(sigs[i - 1][1]):
             raise tla.MachineryError('ArgClass graph does not match the exported table')
-    cjobs = [(sigs[i - 1][0], sigs[i - 1][1], a, v) for i, a in calls for v in VERSIONS]
+    cjobs = [(sigs[i - 1][0], sigs[i - 1][1], a, c, v) for i, a, c in calls for v in VERSIONS]
     cjobs.sort(key=lambda j: hash(j) % 1009)      # spread the slow calls (and the versions of one call) over the chunks
     for st, fails, nontriv, samples in core.pool_map(call_worker, chunks(cjobs, PROCS * 8), procs=PROCS,
                                                      initializer=_winit, initargs=initargs):
@@ -990,6 +1059,7 @@ def run(chk: core.Check) -> None:
     chk.add('transitions', n_edges)
     chk.coverage['function_signatures_exported'] = len(sigs)
     chk.coverage['function_calls_replayed'] = len(calls)
+    chk.coverage['collation_calls_made_twice'] = n_again
     print(f'  ArgClass: signatures={len(sigs)} calls={len(calls)} tlc={r.wall_s:.1f}s replay={time.time() - t0:.1f}s', flush=True)
 
     # ---- 3. ParserLife: model, self-tests, histories ------------------------------------
@@ -1141,7 +1211,8 @@ def run(chk: core.Check) -> None:
         fh.write('GenLens == <<' + ', '.join(map(str, lens)) + '>>\n')
         fh.write('ASSUME PrintPlan == \\A k \\in 1..Len(GenLens) : ExprChosen(k) => PrintT(<<"mut", k, Chosen(k, GenLens[k])>>)\n')
         fh.write('ASSUME PrintSeeds == \\A k \\in 1..Len(Seeds) : PrintT(<<"seedmut", k, Seeds[k], MutOps(Len(Seeds[k]), Alphabet)>>)\n')
-        fh.write('ASSUME PrintStress == PrintT(<<"stress", Stress>>)\n====\n')
+        fh.write('ASSUME PrintStress == PrintT(<<"stress", Stress>>)\n')
+        fh.write('ASSUME PrintPumps == PrintT(<<"pumps", Pumps>>) /\\ PrintT(<<"pump_counts", PumpCounts>>)\n====\n')
     cfg = tla.cfg_text(dict(Alphabet=set(all_tokens), MaxLen=0, **base), invariants=['TypeOK'])
     r = tla.require_ok(tla.run_tlc('C03MutPlan', cfg, os.path.join(chk.scratch, 'mutplan'), workers=1,
                                    extra_modules_dir=gen), 'C03MutPlan')
@@ -1157,23 +1228,30 @@ def run(chk: core.Check) -> None:
         mjobs.append((v, text, k, ms))
     sjobs = [(k, tuple(seed), sorted(tuple(m) for m in muts)) for k, seed, muts in printed(r.output, 'seedmut')]
     stress = [dict(v) for v in next(printed(r.output, 'stress'), (frozenset(),))[0]]
+    pumps = sorted((dict(v) for v in next(printed(r.output, 'pumps'), (frozenset(),))[0]), key=lambda p: p['id'])
+    pump_counts = sorted(next(printed(r.output, 'pump_counts'), (frozenset(),))[0])
     del r
+    if (len(pumps) < 20 or len(pump_counts) < 2) and not _too_many_hangs():
+        raise tla.MachineryError('TLC printed no pump plan')
     if (len(sjobs) < 5 or len(stress) < 3) and not _too_many_hangs():
         raise tla.MachineryError('TLC printed no seed / stress plan')
     t1 = time.time()
     seed_units = [(k, seed, ms[i:i + 200]) for k, seed, ms in sjobs for i in range(0, len(ms), 200)]
     n_seed = sum(len(ms) for _, _, ms in sjobs) + len(sjobs)
     for worker, jobs_ in ((seed_worker, chunks(seed_units, PROCS * 4)),
-                          (stress_worker, [[v] for v in sorted(stress, key=lambda v: (v['pre'], v['n']))])):
+                          (stress_worker, [[v] for v in sorted(stress, key=lambda v: (v['pre'], v['n']))]),
+                          (pump_worker, [[(p, pump_counts, v)] for p in pumps for v in VERSIONS])):
         for st, fails, nontriv, samples in core.pool_map(worker, jobs_, procs=PROCS, initializer=_winit, initargs=initargs):
             stats.update(st)
             merge_fails(all_fails, fails)
             nontrivial |= nontriv
-    chk.add('transitions', n_seed + len(stress))
+    chk.add('transitions', n_seed + len(stress) + len(pumps) * len(pump_counts))
+    chk.coverage['pumps'] = len(pumps)
+    chk.coverage['pump_counts'] = pump_counts
     chk.coverage['seed_expressions'] = len(sjobs)
     chk.coverage['seed_mutations_replayed'] = n_seed
     chk.coverage['stress_vectors'] = len(stress)
-    print(f'  seeds: {len(sjobs)} seeds, {n_seed} mutants; stress vectors: {len(stress)}; replay={time.time() - t1:.1f}s', flush=True)
+    print(f'  seeds: {len(sjobs)} seeds, {n_seed} mutants; stress vectors: {len(stress)}; pumps: {len(pumps)}x{len(pump_counts)}; replay={time.time() - t1:.1f}s', flush=True)
     if n_mut < 1000 and not _too_many_hangs():
         raise tla.MachineryError(f'TLC chose only {n_mut} mutations')
     mjobs.sort(key=lambda j: (j[2] * 7919) % 10007)   # spread long expressions over the chunks
